@@ -1,10 +1,10 @@
 package props
 
 import (
-	"strings"
 	"fmt"
 	"math/big"
 	"strconv"
+	"strings"
 
 	"cosmossdk.io/math"
 	sdk "github.com/cosmos/cosmos-sdk/types"
